@@ -19,7 +19,9 @@ for d in sorted(glob.glob('/verif/seeded/*/')):
     def cell(s,n): 
         s=' '.join(str(s).split()).replace('|','/'); return s if len(s)<=n else s[:n-1]+'…'
     rows.append(f"| `{sid}` | {m.get('property')} | {cell(m.get('summary',''),260)} | {cell(m.get('needs',''),220)} | {'; '.join(out)}{(' — '+note) if note else ''} |")
-tbl="| seeded change | property | what it does | what it needs to manifest | result |\n|---|---|---|---|---|\n"+"\n".join(rows)
+n=len(rows); caught=sum(1 for r in rows if '**caught**' in r); noted=len(glob.glob('/verif/seeded/*/note.txt'))
+summary=f"Summary: {n} seeded changes kept; {caught} are reported by the quick tier of the property's check on the current tree; {noted} of them were missed when first tried and led to a wider workload or a corrected oracle (see the note in the last column); {n-caught} are not reported (each explained in its row).\n\n"
+tbl=summary+"| seeded change | property | what it does | what it needs to manifest | result |\n|---|---|---|---|---|\n"+"\n".join(rows)
 p='/verif/DESIGN.md'; s=open(p).read()
 a='<!-- SEEDED-TABLE-BEGIN -->'; b='<!-- SEEDED-TABLE-END -->'
 if a not in s:
